@@ -518,14 +518,18 @@ func (it *Interp) stageFor(fr *Frame, x *ast.ForStmt) {
 		it.exec(fr, x.Init)
 	}
 	if x.Cond != nil {
-		if be, ok := x.Cond.(*ast.BinaryExpr); ok && be.Op == token.LSS && x.Post != nil {
+		if be, ok := x.Cond.(*ast.BinaryExpr); ok && (be.Op == token.LSS || be.Op == token.LEQ) && x.Post != nil {
 			lo := it.eval(fr, be.X)
 			hi := it.eval(fr, be.Y)
 			li, ok1 := lo.(IntV)
 			hv, ok2 := hi.(IntV)
 			inc, isInc := x.Post.(*ast.IncDecStmt)
 			if ok1 && ok2 && isInc && inc.Tok == token.INC {
-				bound = lin.Pos(lin.Sub(hv.E, li.E))
+				d := lin.Sub(hv.E, li.E)
+				if be.Op == token.LEQ {
+					d = lin.AddC(d, 1)
+				}
+				bound = lin.Simplify(it.G, lin.Pos(d))
 			}
 		}
 		if bound == nil {
@@ -830,9 +834,15 @@ func (it *Interp) loopAssign(fr *Frame, x *ast.AssignStmt, cur *loopCtx) {
 			}
 			if obj := fr.Info.Uses[id]; obj != nil {
 				if c := fr.Env.Lookup(obj); c != nil {
-					switch c.V.(type) {
-					case *Stream, *Object, *Slice, *Closure:
+					switch cv := c.V.(type) {
+					case *Stream, *Object, *Closure:
 						it.undecided(x.Pos(), "loop body reassigns "+id.Name)
+					case *Slice:
+						if len(StreamsOf(cv)) > 0 {
+							it.undecided(x.Pos(), "loop body reassigns "+id.Name)
+						} else {
+							c.V = Opaque{Why: "slice built in a loop"}
+						}
 					default:
 						c.V = v
 					}
